@@ -246,8 +246,8 @@ TRUSTED = ["extraction rewrite tables of units/C04.py (Cost wrapper erased: Cost
 NOT_COVERED = [
     "stored cost >= true recomputed cost and true cost >= admissible lower bound for each optimizing planner (needs per-planner tree invariants: planner solve() bodies are not under contract)",
     "monotonicity of the best stored cost across solve() calls inside each planner",
-    "setOptimized(...) call sites and incumbent updates of the optimizing planners other than AIT*, EIT* and PRM (RRT*, RRTX, BIT*, LazyPRM, STRRT*, ...): not verified",
-    "MultiOptimizationObjective / StateCostIntegralObjective arithmetic",
+    "setOptimized(...) call sites and incumbent updates of the optimizing planners other than AIT*, EIT*, PRM and BIT* (updateGoalVertex): RRT* beyond the rewiring block, RRTX, LazyPRM, STRRT*, FMT, ...: not verified",
+    "MultiOptimizationObjective; in StateCostIntegralObjective::motionCost the trapezoid / state-cost / distance arithmetic is behind recording stubs (which states are combined is proved, the IEEE value is not)",
 ]
 
 MISC_CPPS = ['src/ompl/base/src/ProblemDefinition.cpp', 'src/ompl/base/src/OptimizationObjective.cpp', 'src/ompl/base/objectives/src/MaximizeMinClearanceObjective.cpp', 'src/ompl/base/objectives/src/MinimaxObjective.cpp']
